@@ -52,6 +52,10 @@ def run_task(task, kf):
             for annotate in ((False, True) if task["tier"] == "thorough" else (False,)):
                 for ref in M.REFS:
                     out.append(explore.explore(_cfg_harness(b, pkg, ref, runner, annotate), kf, profile_root=loader.SRC))
+                    if pkg or task["tier"] == "thorough":
+                        # the same reference inside a macro body (one and two levels deep): it resolves as it does outside
+                        for wrap in ("[7].map(z_, {ref})[0]", "[7, 8].map(z_, [z_].map(w_, {ref})[0])[1]"):
+                            out.append(explore.explore(_cfg_harness(b, pkg, ref, runner, annotate, wrap), kf, profile_root=loader.SRC))
         elif task["what"] == "macro":
             out.append(explore.explore(_macro_harness(task["i"], runner, task.get("pkg")), kf, profile_root=loader.SRC))
         else:
@@ -81,7 +85,7 @@ def _same(r, spec, vars):
     return z3.And([_same(items[k], s, vars) for k, s in spec[1].items()])
 
 
-def _cfg_harness(bindings, pkg, ref, runner, annotate):
+def _cfg_harness(bindings, pkg, ref, runner, annotate, wrap=None):
     celpy, ct, ev = common.mods()
     names = []
     for n in sorted(bindings):
@@ -94,12 +98,12 @@ def _cfg_harness(bindings, pkg, ref, runner, annotate):
     ann = None
     if annotate:
         ann = {n: (ct.IntType if s[0] == "int" else ct.MapType) for n, s in bindings.items()}
-    prog = common.make_program(ref, runner, package=pkg, annotations=ann)
+    prog = common.make_program(wrap.format(ref=ref) if wrap else ref, runner, package=pkg, annotations=ann)
     exp = M.resolve(bindings, pkg, ref)
     winner = M.LAST_WINNER if exp[0] == "value" else None
     # the winning name is also the strict prefix of a longer bound name (bound "both as variable and as namespace")
     also_ns = bool(winner) and any(n != winner and n.startswith(winner + ".") for n in bindings)
-    tag = f"C12/resolve/{'pkg' if pkg else 'nopkg'}"
+    tag = f"C12/resolve/{'pkg' if pkg else 'nopkg'}" + ("/in-macro" if wrap else "")
 
     def run(vals):
         b = {n: _build(s, vals, vars) for n, s in bindings.items()}
@@ -122,9 +126,9 @@ def _cfg_harness(bindings, pkg, ref, runner, annotate):
         return obs
 
     def witness(vals):
-        return {"check": "c12.resolve", "args": enc({"bindings": bindings, "package": pkg, "ref": ref, "runner": runner, "annotate": annotate, "vals": vals})}
+        return {"check": "c12.resolve", "args": enc({"bindings": bindings, "package": pkg, "ref": ref, "runner": runner, "annotate": annotate, "vals": vals, "wrap": wrap})}
 
-    return Harness(id=f"C12/{ref}|{','.join(sorted(bindings))}|{pkg}|{int(annotate)}@{runner}", vars=vars, pre=pre, run=run, witness=witness, max_paths=40)
+    return Harness(id=f"C12/{ref}|{','.join(sorted(bindings))}|{pkg}|{int(annotate)}|{wrap or ''}@{runner}", vars=vars, pre=pre, run=run, witness=witness, max_paths=40)
 
 
 def _s(r):
@@ -160,6 +164,9 @@ def _macro_harness(i, runner, pkg=None):
     return Harness(id=f"C12/macro/{i}{'/package-' + pkg if pkg else ''}@{runner}", vars=vars, pre=pre, run=run, witness=witness, max_paths=60)
 
 
+DECL_SRCS = M.DECL_SRCS
+
+
 def _decl_harness(runner):
     """bindings passed to evaluate take precedence over declarations of the same name"""
     celpy, ct, ev = common.mods()
@@ -171,6 +178,16 @@ def _decl_harness(runner):
         kd, r = common.outcome(lambda: common.make_program("b1", runner, annotations={"b1": ct.IntType}).evaluate(
             {"b1": ct.IntType(mk(SInt, A, vals["va"]))}))
         obs = [Ob(f"C12/binding-over-declaration@{runner}", (tm(r) == A) if kd == "value" and isinstance(r, int) else z3.BoolVal(False), note=f"{kd} {_s(r)}")]
+        # a declared name referenced inside macro bodies, bound to an int and to null: the binding still wins over the declaration
+        for src in DECL_SRCS:
+            for kind_ in ("int", "null"):
+                val = ct.IntType(mk(SInt, A, vals["va"])) if kind_ == "int" else None
+                kd, r = common.outcome(lambda: common.make_program(src, runner, annotations={"b1": ct.IntType, "b2": ct.StringType}).evaluate({"b1": val}))
+                if kind_ == "int":
+                    ok = (tm(r) == A) if kd == "value" and isinstance(r, int) else z3.BoolVal(False)
+                else:
+                    ok = z3.BoolVal(kd == "value" and r is None)
+                obs.append(Ob(f"C12/binding-over-declaration/in-macro@{runner}", ok, note=f"`{src}` with b1 bound to {kind_}: {kd} {_s(r)}"))
         return obs
 
     def witness(vals):
